@@ -961,8 +961,82 @@ func (ev *keyEval) matchCtlLoop(fs *ast.ForStmt) *ctlLoop {
 		return nil
 	}
 	sawRange, sawStore := false, false
+	// the test "some registered sequence starts with this byte": a range over the key table with a
+	// first-byte comparison that leaves this round — a labelled continue, or `return true` in a helper
+	// whose answer makes the caller `continue`
+	firstByteScan := func(body *ast.BlockStmt, leaves func(ast.Stmt) bool) bool {
+		found := false
+		ast.Inspect(body, func(n ast.Node) bool {
+			rs, ok := n.(*ast.RangeStmt)
+			if !ok {
+				return true
+			}
+			se, ok := rs.X.(*ast.SelectorExpr)
+			if !ok || se.Sel.Name != "keycodes" {
+				return true
+			}
+			ast.Inspect(rs.Body, func(m ast.Node) bool {
+				is, ok := m.(*ast.IfStmt)
+				if !ok {
+					return true
+				}
+				c, ok := is.Cond.(*ast.BinaryExpr)
+				if !ok || c.Op != token.EQL {
+					return true
+				}
+				ix, ok := c.X.(*ast.IndexExpr)
+				if !ok {
+					return true
+				}
+				if v, ok := intConst(info, ix.Index); !ok || v != 0 {
+					return true
+				}
+				for _, b := range is.Body.List {
+					if leaves(b) {
+						found = true
+					}
+				}
+				return true
+			})
+			return true
+		})
+		return found
+	}
 	for _, st := range fs.Body.List {
 		switch s := st.(type) {
+		case *ast.IfStmt:
+			// if t.startsKeySequence(byte(i)) { continue }
+			call, ok := s.Cond.(*ast.CallExpr)
+			if !ok || len(s.Body.List) != 1 {
+				break
+			}
+			if br, isBr := s.Body.List[0].(*ast.BranchStmt); !isBr || br.Tok != token.CONTINUE {
+				break
+			}
+			if callee := calleeObj(ev.pk, call); callee != nil {
+				if hd := ev.decls[callee]; hd != nil && hd.Body != nil {
+					returnsTrue := func(b ast.Stmt) bool {
+						rs, ok := b.(*ast.ReturnStmt)
+						if !ok || len(rs.Results) != 1 {
+							return false
+						}
+						tv, ok := info.Types[rs.Results[0]]
+						return ok && tv.Value != nil && tv.Value.Kind() == constant.Bool && constant.BoolVal(tv.Value)
+					}
+					// and the helper answers false otherwise
+					endsFalse := false
+					if n := len(hd.Body.List); n > 0 {
+						if rs, ok := hd.Body.List[n-1].(*ast.ReturnStmt); ok && len(rs.Results) == 1 {
+							if tv, ok := info.Types[rs.Results[0]]; ok && tv.Value != nil && tv.Value.Kind() == constant.Bool && !constant.BoolVal(tv.Value) {
+								endsFalse = true
+							}
+						}
+					}
+					if endsFalse && firstByteScan(hd.Body, returnsTrue) {
+						sawRange = true
+					}
+				}
+			}
 		case *ast.RangeStmt:
 			// range over t.keycodes with a `continue <label>` under a first-byte comparison
 			if se, ok := s.X.(*ast.SelectorExpr); ok && se.Sel.Name == "keycodes" {
